@@ -369,4 +369,5 @@ func runC03(r *run) {
 	customErrorDevices(r.violate)
 	lateErrorDeviceLevels(r.violate)
 	discardPlusLevelWriter(r.violate)
+	returnedListIsACopy(r.violate)
 }
